@@ -344,11 +344,11 @@ func populateCalendarObject(co *CalendarObject, h http.Header) error {
 		co.Path = u.Path
 	}
 	if etag := h.Get("ETag"); etag != "" {
-		etag, err := strconv.Unquote(etag)
-		if err != nil {
+		var e internal.ETag
+		if err := e.UnmarshalText([]byte(etag)); err != nil {
 			return err
 		}
-		co.ETag = etag
+		co.ETag = string(e)
 	}
 	if contentLength := h.Get("Content-Length"); contentLength != "" {
 		n, err := strconv.ParseInt(contentLength, 10, 64)
